@@ -156,6 +156,11 @@ def c07_3(ctx, r):
     for f2, n, attr, t, kind in attr_stores(ctx, {"_max_batch_time", "_num_processes", "_per_node_batch_size", "_time_based_batching", "_try_add_blocked_jobs"}):
         if f2.cls is not None and f2.cls.name == "_BatchJobs":
             r.check(f2 is init, f"{attr} set only in the constructor", key_of(f2, f"writes {attr}"), f2.loc(n), f"{f2.short} changes {attr}")
+    td = ctx.fn("submitter_params._to_timedelta", "C07.3")
+    txt = ctx.src(td.node).replace(" ", "")
+    okt = all(x in txt for x in ("hours=int(match.group(1))", "minutes=int(match.group(2))", "seconds=int(match.group(3))", "returntimedelta(hours=hours,minutes=minutes,seconds=seconds)"))
+    r.check(okt, "walltime H:M:S is parsed as hours, minutes, seconds", key_of(td, "walltime fields"), td.loc(), "_to_timedelta no longer maps the three walltime fields to hours / minutes / seconds: the batch time limit is wrong by a factor",
+            "sum to at most walltime x processes-per-node")
     gw = ctx.fn("SubmitterParams.get_wall_time", "C07.3")
     r.check("walltime" in ctx.src(gw.node) and "_to_timedelta(wall_time)" in ctx.src(gw.node), "get_wall_time parses the group's walltime", key_of(gw, "walltime"), gw.loc(), "get_wall_time no longer derives from hpc.walltime")
 
